@@ -23,6 +23,8 @@ type Loaded struct {
 	Pkgs      map[string]*packages.Package // by import path
 	Contracts *contract.Set
 	Files     []string // contract files read
+	// UsedContracts: callee contracts applied while verifying Layer-D functions in this run
+	UsedContracts map[string]bool
 }
 
 // Load type-checks the repository from its current working tree.
